@@ -75,6 +75,13 @@ def md_pool(backend: str) -> Dict[str, List[Dict[str, Any]]]:
                             "container_type": "pat::MuonCollection", "element_type": "pat::Muon", "contains_collection": True, "element_pointer": False}}[backend]
     p["collection"] = [decl]
     p["function"] = [{"metadata_type": "add_cpp_function", "name": "MyFunc", "include_files": ["myfunc.h"], "arguments": ["x"], "code": ["auto result = x * 2;"], "return_type": "double"}]
+    # a second plug-in with headers of its own, and a method-style one: what one query's plug-ins ask for (headers, code,
+    # the table of callable names) must not reach a later query that calls ANOTHER plug-in, a built-in one, or none
+    p["function2"] = [{"metadata_type": "add_cpp_function", "name": "OtherFunc", "include_files": ["otherfunc.h", "vector"], "arguments": ["a", "b"], "code": ["auto result = a - b;"], "return_type": "double"}]
+    p["method_function"] = [{"metadata_type": "add_cpp_function", "name": "scaledPt", "include_files": ["scaled.h"], "arguments": ["f"], "code": ["auto result = obj->pt() * f;" if backend == "atlas" else "auto result = obj.pt() * f;"],
+                             "method_object": "obj", "instance_object": cls, "return_type": "double"}]
+    # a data member (read without a call), declared
+    p["member_int"] = [{"metadata_type": "add_method_type_info", "type_string": cls, "method_name": "nMember", "return_type": "int"}]
     p["job_script"] = [{"metadata_type": "add_job_script", "name": "js1", "script": ["print('js1 line')"], "depends_on": []}]
     p["job_script_dep"] = [{"metadata_type": "add_job_script", "name": "js2", "script": ["print('js2')"], "depends_on": ["js1"]},
                            {"metadata_type": "add_job_script", "name": "js1", "script": ["print('js1 line')"], "depends_on": []}]
@@ -104,7 +111,13 @@ def history_queries(backend: str) -> List[str]:
             f"Select(SelectMany({{ds}}, lambda e: e.{coll}('A')), lambda j: (j.pt() * 0.0, j.pt() + 1, 2.0, False))",
             f"Select(SelectMany({{ds}}, lambda e: e.{coll}('A')), lambda j: (j.pt() * NEGZERO, j.pt() + 1.0, 2, True, 0))",
             f"Select({{ds}}, lambda e: e.{coll}('A').Select(lambda j: MyFunc(j.pt())))",
-            f"Select({{ds}}, lambda e: e.{coll}('A').Where(lambda j: j.color() == xAOD.Jet.Color.Red).Count())"]
+            f"Select({{ds}}, lambda e: e.{coll}('A').Where(lambda j: j.color() == xAOD.Jet.Color.Red).Count())",
+            # plug-ins: a second one, a method-style one, the built-in DeltaR; a data member read with and without a declaration
+            f"Select({{ds}}, lambda e: e.{coll}('A').Select(lambda j: OtherFunc(j.pt(), j.eta())))",
+            f"Select({{ds}}, lambda e: e.{coll}('A').Select(lambda j: j.scaledPt(2.0)))",
+            f"Select({{ds}}, lambda e: e.{coll}('A').Select(lambda j: DeltaR(j.eta(), j.phi(), 0.5, 0.25)))",
+            f"Select({{ds}}, lambda e: e.{coll}('A').Select(lambda j: j.nMember))",
+            f"Select({{ds}}, lambda e: e.{coll}('A').Select(lambda j: j.other().nMember + j.nMember))"]
 
 
 UNSUPPORTED = ["Select({ds}, lambda e: e.%s('A').Select(lambda j: j.pt() // 2))", "Select({ds}, lambda e: e.%s('A').Select(lambda j: 1 < j.pt() < 2))",
@@ -134,9 +147,27 @@ def probes(backend: str) -> List[Tuple[str, str]]:
          ("two_declared_numeric_types_rev", f"Select(MetaData(MetaData(ds, {{'metadata_type': 'add_method_type_info', 'type_string': '{cls}', 'method_name': 'bigN', 'return_type': 'long'}}), {{'metadata_type': 'add_method_type_info', 'type_string': '{cls}', 'method_name': 'nHitsU', 'return_type': 'unsigned int'}}), lambda e: e.{coll}('A').Select(lambda j: j.nHitsU() - j.bigN()))"),
          ("abs_of_float", f"Select(ds, lambda e: e.{coll}('A').Select(lambda j: abs(j.pt()) + abs(j.eta())))"),
          ("abs_of_int", f"Select(ds, lambda e: abs(e.{coll}('A').Count() - 3) / 2)"),
+         # plug-ins and data members
+         ("undeclared_function2", f"Select(ds, lambda e: e.{coll}('A').Select(lambda j: OtherFunc(j.pt(), 1.0)))"),
+         ("undeclared_method_function", f"Select(ds, lambda e: e.{coll}('A').Select(lambda j: j.scaledPt(3.0)))"),
+         ("builtin_function", f"Select(ds, lambda e: e.{coll}('A').Select(lambda j: DeltaR(j.eta(), j.phi(), 0.0, 1.0)))"),
+         ("declared_function_inline", f"Select(MetaData(ds, {{'metadata_type': 'add_cpp_function', 'name': 'Mine', 'include_files': ['mine.h'], 'arguments': ['x'], 'code': ['auto result = x + 1;'], 'return_type': 'double'}}), lambda e: e.{coll}('A').Select(lambda j: Mine(j.pt())))"),
+         ("declared_function_same_name_other_code", f"Select(MetaData(ds, {{'metadata_type': 'add_cpp_function', 'name': 'MyFunc', 'include_files': ['mine2.h'], 'arguments': ['y'], 'code': ['auto result = y * 3;'], 'return_type': 'float'}}), lambda e: e.{coll}('A').Select(lambda j: MyFunc(j.eta())))"),
+         ("undeclared_member", f"Select(ds, lambda e: e.{coll}('A').Select(lambda j: j.nMember))"),
+         ("declared_member_inline", f"Select(MetaData(ds, {{'metadata_type': 'add_method_type_info', 'type_string': '{cls}', 'method_name': 'nMember', 'return_type': 'int'}}), lambda e: e.{coll}('A').Select(lambda j: j.nMember))"),
          ("docker_md_unknown", f"Select(MetaData(ds, {{'metadata_type': 'docker', 'image': 'x:y'}}), lambda e: e.{coll}('A').Count())"),
          ("job_script_self", "Select(MetaData(ds, {'metadata_type': 'add_job_script', 'name': 'js2', 'script': [\"print('js2')\"], 'depends_on': ['js1']}), lambda e: e.%s('A').Count())" % coll)]
     return P
+
+
+# which probes can see a leak of which kind of declaration
+SENSITIVE = {"method_int": ("undeclared_method", "declared_inline"), "method_vec": ("undeclared_vec",), "method_ptr": ("deref_method",), "method_pt_float": ("pt_default", "abs_of_float", "plain"),
+             "method_on_default_type": ("undeclared_on_default_type",), "override_default": ("default_typed_method",), "method_uint": ("two_declared_numeric_types", "two_declared_numeric_types_rev"),
+             "method_long": ("two_declared_numeric_types", "two_declared_numeric_types_rev"), "enum": ("undeclared_enum", "declared_enum_other_content", "declared_other_enum_same_namespace"),
+             "enum2": ("undeclared_enum2",), "collection": ("undeclared_collection",), "function": ("undeclared_function", "declared_function_same_name_other_code", "builtin_function", "declared_function_inline"),
+             "function2": ("undeclared_function2", "builtin_function", "declared_function_inline", "undeclared_function"), "method_function": ("undeclared_method_function", "builtin_function", "declared_function_inline"),
+             "member_int": ("undeclared_member", "declared_member_inline"), "job_script": ("job_script_self", "plain"), "job_script_dep": ("job_script_self", "plain"), "inject": ("plain", "builtin_function"),
+             "docker": ("docker_md_unknown", "plain"), "same_ast_object": ("declared_inline", "plain", "pt_default", "job_script_self", "constants_a", "default_typed_method")}
 
 
 def gen_history(R: random.Random, maxlen: int, inject: bool) -> List[Dict[str, Any]]:
@@ -149,6 +180,13 @@ def gen_history(R: random.Random, maxlen: int, inject: bool) -> List[Dict[str, A
         md = [m for k in kinds for m in pool[k]]
         R.shuffle(md)
         q = R.choice(history_queries(backend))
+        for word, kind in (("OtherFunc", "function2"), ("scaledPt", "method_function"), ("MyFunc", "function")):
+            if word in q and kind not in kinds and R.random() < 0.8:
+                kinds = kinds + [kind]
+                md = md + pool[kind]
+        if "nMember" in q and "member_int" not in kinds and R.random() < 0.4:
+            kinds = kinds + ["member_int"]
+            md = md + pool["member_int"]
         if "xAOD.Jet.Color" in q and R.random() < 0.7 and "enum" not in kinds:
             kinds = kinds + ["enum"]   # a query that really USES an enum value (declaring one is not the same as resolving it)
             md = md + pool["enum"]
@@ -296,6 +334,13 @@ def run(ctx: Ctx) -> int:
     for i, h in enumerate(hist):
         R = ctx.rng("probes", i)
         chosen = plist if ctx.replay else R.sample(plist, npick)
+        if not ctx.replay:
+            # half of the probes are aimed: the ones sensitive to what THIS history declared, on the backends it used, on the
+            # executor it left behind as well as on a new one (a uniform draw from all probes rarely meets the one leak a history can cause)
+            aimed = [p for p in plist if any(p[1] == st["backend"] and p[0] in SENSITIVE.get(k.split(":")[0], ()) for st in h for k in st["md_kinds"])]
+            same_backend = [p for p in plist if any(p[1] == st["backend"] for st in h)]
+            extra = R.sample(aimed, min(len(aimed), npick // 2)) + R.sample(same_backend, min(len(same_backend), 2))
+            chosen = list(dict.fromkeys(extra + chosen))[:npick + 2]
         if ctx.replay:
             chosen = [p for p in plist if f"{p[0]}|{p[1]}|{int(p[3])}" == rep["probe"]]
         for j, p in enumerate(chosen):
